@@ -145,6 +145,8 @@ func c11NewInst(ch *c11Chain, al *c11Alphabet, root int64) *c11Inst {
 var c11PoolFields = []string{"logger", "evidenceStore", "evidenceList", "evidenceSize", "stateDB", "blockStore", "mtx", "state",
 	"consensusBuffer", "pruningHeight", "pruningTime"}
 
+var c11CanClone = c11Cloneable()
+
 func c11Cloneable() bool {
 	t := reflect.TypeOf(Pool{})
 	if t.NumField() != len(c11PoolFields) {
@@ -529,6 +531,10 @@ func (in *c11Inst) step1(op *c11OpDef) (vs []c11V) {
 			}
 			lcSeen[it.Hash] = true
 		}
+		var pre *c11Inst // copy of the state before the call, to name the member a refused list fails on
+		if len(op.items) > 1 && must && c11CanClone {
+			pre = in.clone()
+		}
 		err, pan := c11Safe(func() error { return in.pool.CheckEvidence(evs()) })
 		if pan != "" {
 			add("CheckEvidence:panic:"+in.classes(op.items), pan)
@@ -544,16 +550,24 @@ func (in *c11Inst) step1(op *c11OpDef) (vs []c11V) {
 				fmt.Sprintf("CheckEvidence(%v) returned nil at pool height %d although %s is %s", in.names(op.items), in.H, bad.Name, why))
 		}
 		if err != nil && must {
-			// the list is processed in order and every item that passes becomes pending: the first one that is not
-			// pending afterwards is the one the pool refused (keeps the key independent of the rest of the list)
-			culprit := in.al.items[op.items[0]]
-			for _, i := range op.items {
-				if _, p := in.rPending[in.al.items[i].Hash]; !p {
-					culprit = in.al.items[i]
-					break
+			// name the member the pool refuses on its own (asked of the real pool on copies of the state before the
+			// call), so that the key does not depend on the rest of the list; a list whose members all pass singly
+			// gets a key of its own
+			cls := in.classes(op.items)
+			if len(op.items) > 1 {
+				cls += ":only-as-a-list"
+				for _, i := range op.items {
+					if pre == nil {
+						break
+					}
+					probe := pre.clone()
+					if e, _ := c11Safe(func() error { return probe.pool.CheckEvidence(types.EvidenceList{in.al.items[i].Ev}) }); e != nil {
+						cls = in.al.items[i].Class
+						break
+					}
 				}
 			}
-			add("CheckEvidence:rejects-acceptable-list:"+culprit.Class,
+			add("CheckEvidence:rejects-acceptable-list:"+cls,
 				fmt.Sprintf("CheckEvidence(%v) at pool height %d: %s; every item is genuine, not expired by both limits, not committed, and no item repeats", in.names(op.items), in.H, c11Short(err)))
 		}
 		if len(vs) > 0 {
@@ -1039,7 +1053,7 @@ func c11RunSearch(cfg c11Config) {
 		al = c11BuildAlphabet(ch, true).filter(cfg.only)
 	}
 	ops := c11BuildOps(al, cfg.allPairs)
-	s := &c11Search{ch: ch, al: al, ops: ops, cloning: c11Cloneable()}
+	s := &c11Search{ch: ch, al: al, ops: ops, cloning: c11CanClone}
 	r.Set("states_recreated_by", map[bool]string{true: "one pure replay per expanded state + field-by-field clones for sibling operations", false: "pure replay for every operation (Pool struct differs from the known layout)"}[s.cloning])
 	r.Set("alphabet_items", int64(len(al.items)))
 	r.Set("operations", int64(len(ops)))
